@@ -178,6 +178,8 @@ pub struct Config {
     /// magnitude range used when a float counterexample has to be searched around a solver model
     pub float_search: (f64, f64),
     pub float_search_trials: u32,
+    /// box used when an unreproduced real model is followed by a seeded search for a reproducing input
+    pub real_search: (f64, f64),
     /// contract stubs in force (names), see `stub_complex1`
     pub stubs: Vec<String>,
     /// read the f64 literals nearest to pi, pi/2, ... as those numbers (libm axioms speak about the true pi)
@@ -201,6 +203,7 @@ impl Default for Config {
             fp_timeout_ms: 60000,
             float_search: (1.0e-3, 1.0e3),
             float_search_trials: 4000,
+            real_search: (-8.0, 8.0),
             stubs: Vec::new(),
             named_constants: false,
         }
@@ -236,6 +239,7 @@ pub struct Engine {
     memo: HashMap<String, (Verdict, Option<BTreeMap<String, String>>)>,
     extra_axioms: Vec<B>,
     last_panic: Option<(String, String)>,
+    tolerant: bool,
     var_names: BTreeMap<u32, String>,
 }
 
@@ -290,6 +294,7 @@ impl Engine {
             memo: HashMap::new(),
             extra_axioms: Vec::new(),
             last_panic: None,
+            tolerant: false,
             var_names: BTreeMap::new(),
         }
     }
@@ -308,7 +313,7 @@ impl Engine {
     }
 
     fn cval_of_lit(&self, x: f64) -> Option<CVal> {
-        if self.cfg.float { Some(CVal::F(x)) } else { Rat::from_f64(x).map(CVal::R) }
+        if self.cfg.float || !x.is_finite() { Some(CVal::F(x)) } else { Rat::from_f64(x).map(CVal::R) }
     }
 
     fn cval(&self, s: Sym) -> Option<CVal> {
@@ -333,7 +338,7 @@ impl Engine {
     fn from_cval(&mut self, c: CVal) -> Sym {
         match c {
             CVal::F(x) => {
-                if self.cfg.float { Sym { node: LIT, lit: x } } else { let i = self.mk(Node::FConst(x.to_bits())); Sym { node: i, lit: 0.0 } }
+                if self.cfg.float || !x.is_finite() { Sym { node: LIT, lit: x } } else { let i = self.mk(Node::FConst(x.to_bits())); Sym { node: i, lit: 0.0 } }
             }
             CVal::R(r) => {
                 if !self.cfg.float {
@@ -395,7 +400,12 @@ impl Engine {
         }
     }
 
+    fn nan_id(&self, i: u32) -> bool { matches!(self.cval_id(i), Some(CVal::F(x)) if x.is_nan()) }
+    fn is_nan_const(&self, s: Sym) -> bool { matches!(self.cval(s), Some(CVal::F(x)) if x.is_nan()) }
+
     fn bin(&mut self, op: u8, a: Sym, b: Sym) -> Sym {
+        // IEEE poison: NaN (e.g. returned by a user function) propagates through every operation
+        if self.is_nan_const(a) || self.is_nan_const(b) { return Sym::lit(f64::NAN); }
         if let (Some(x), Some(y)) = (self.cval(a), self.cval(b)) {
             if let Some(c) = self.fold2(op, x, y) {
                 return self.from_cval(c);
@@ -468,6 +478,7 @@ impl Engine {
     }
 
     fn un(&mut self, what: &'static str, a: Sym) -> Sym {
+        if self.is_nan_const(a) { return Sym::lit(f64::NAN); }
         if let Some(c) = self.cval(a) {
             match (what, c) {
                 ("abs", CVal::R(r)) => { if let Some(v) = r.abs() { return self.from_cval(CVal::R(v)); } }
@@ -548,11 +559,19 @@ impl Engine {
         Some(match b {
             B::True => true,
             B::False => false,
+            B::Lt(x, y) | B::Le(x, y) | B::Eq(x, y) if self.nan_id(*x) || self.nan_id(*y) => false, // every comparison with NaN is false
             B::Lt(x, y) => cmp_c(self.cval_id(*x)?, self.cval_id(*y)?)? == std::cmp::Ordering::Less,
-            B::Le(x, y) => cmp_c(self.cval_id(*x)?, self.cval_id(*y)?)? != std::cmp::Ordering::Greater,
+            B::Le(x, y) => {
+                let (a, b) = (self.cval_id(*x)?, self.cval_id(*y)?);
+                if self.tolerant { if let (CVal::F(_), _) | (_, CVal::F(_)) = (a, b) { let (u, v) = (cv_f(a), cv_f(b)); return Some(u <= v + 1.0e-9 * (1.0 + u.abs().max(v.abs()))); } }
+                cmp_c(a, b)? != std::cmp::Ordering::Greater
+            }
             B::Eq(x, y) => {
                 if x == y { return Some(true); }
-                cmp_c(self.cval_id(*x)?, self.cval_id(*y)?)? == std::cmp::Ordering::Equal
+                let (a, b) = (self.cval_id(*x)?, self.cval_id(*y)?);
+                // an obligation evaluated on inexact (float) values is judged up to rounding, never a library decision
+                if self.tolerant { if let (CVal::F(_), _) | (_, CVal::F(_)) = (a, b) { let (u, v) = (cv_f(a), cv_f(b)); return Some((u - v).abs() <= 1.0e-9 * (1.0 + u.abs().max(v.abs()))); } }
+                cmp_c(a, b)? == std::cmp::Ordering::Equal
             }
             B::Not(x) => !self.eval_b(x)?,
             B::And(v) => {
@@ -1381,17 +1400,19 @@ impl PartialEq for Sym {
 impl Eq for Sym {}
 impl PartialOrd for Sym {
     fn partial_cmp(&self, o: &Sym) -> Option<std::cmp::Ordering> {
+        if self.is_nan() || o.is_nan() { return None; }
         if decide(lt(*self, *o)) { Some(std::cmp::Ordering::Less) }
         else if decide(eq(*self, *o)) { Some(std::cmp::Ordering::Equal) }
         else { Some(std::cmp::Ordering::Greater) }
     }
     fn lt(&self, o: &Sym) -> bool { decide(lt(*self, *o)) }
-    fn le(&self, o: &Sym) -> bool { !decide(lt(*o, *self)) }
+    // (every comparison with NaN is false, so <= and >= cannot be written as negated < there)
+    fn le(&self, o: &Sym) -> bool { if self.is_nan() || o.is_nan() { false } else { !decide(lt(*o, *self)) } }
     fn gt(&self, o: &Sym) -> bool { decide(lt(*o, *self)) }
-    fn ge(&self, o: &Sym) -> bool { !decide(lt(*self, *o)) }
+    fn ge(&self, o: &Sym) -> bool { if self.is_nan() || o.is_nan() { false } else { !decide(lt(*self, *o)) } }
 }
 impl Ord for Sym {
-    fn cmp(&self, o: &Sym) -> std::cmp::Ordering { self.partial_cmp(o).unwrap() }
+    fn cmp(&self, o: &Sym) -> std::cmp::Ordering { self.partial_cmp(o).unwrap_or(std::cmp::Ordering::Equal) }
 }
 impl Default for Sym { fn default() -> Sym { Sym::lit(0.0) } }
 impl fmt::Debug for Sym { fn fmt(&self, f: &mut fmt::Formatter<'_>) -> fmt::Result { write!(f, "{}", self.show()) } }
@@ -1512,7 +1533,10 @@ pub fn prove(label: &str, b: B) -> Proof {
     with(|e| {
         e.stats.obligations += 1;
         e.path_oblig_labels.push(label.to_string());
-        match e.eval_b(&b) {
+        e.tolerant = e.concrete.is_some();
+        let evaluated = e.eval_b(&b);
+        e.tolerant = false;
+        match evaluated {
             Some(true) => {
                 if matches!(b, B::True) { e.stats.discharged_syntactic += 1; } else { e.stats.discharged_concrete_const += 1; }
                 return Proof::Syntactic;
@@ -1869,6 +1893,7 @@ pub fn install_panic_hook() {
 }
 
 pub struct Report {
+    pub var_names: Vec<String>,
     pub stats: Stats,
     pub candidates: Vec<Candidate>,
     pub control_failures: Vec<String>,
@@ -1925,7 +1950,8 @@ pub fn explore(cfg: Config, body: &mut dyn FnMut()) -> Report {
     }
     let mut g = lock();
     let e = g.take().unwrap();
-    Report { stats: e.stats, candidates: e.candidates, control_failures: e.control_failures, undecided: e.undecided_labels, samples: e.samples, notes: e.notes, errors }
+    let var_names: Vec<String> = e.var_names.values().filter(|n| !n.contains('(') && !n.contains('#')).cloned().collect();
+    Report { var_names, stats: e.stats, candidates: e.candidates, control_failures: e.control_failures, undecided: e.undecided_labels, samples: e.samples, notes: e.notes, errors }
 }
 
 pub struct ConcreteReport {
